@@ -37,3 +37,35 @@ let run (id : string) (ops : string list) (out : out_channel) =
       (if o.C18Model.o_panic then 1 else 0)) tr
 
 let registered = Registry.register "C18" run
+
+(* ---- cross-check of the extraction: the same cases evaluated inside Coq ----
+   `main.exe --coq C18 cases out.v n` writes, for the first n cases, an Example stating that
+   C18Model.run_trace on the case's ops (as a Gallina term) equals the observation list THIS
+   extracted runner computed (as a Gallina term), proved by vm_compute; reflexivity. *)
+let coq_z z = Printf.sprintf "(%d)%%Z" (int_of_z z)
+let coq_zlist l = "[" ^ String.concat "; " (Stdlib.List.map coq_z l) ^ "]"
+let coq_nat n = Printf.sprintf "%d%%nat" (int_of_nat n)
+let coq_op (o : C18Model.op) = match o with
+  | C18Model.OPrepend (n, f) -> Printf.sprintf "OPrepend %s %s" (coq_nat n) (coq_zlist f)
+  | C18Model.OAppend (n, f) -> Printf.sprintf "OAppend %s %s" (coq_nat n) (coq_zlist f)
+  | C18Model.OClear -> "OClear"
+  | C18Model.OPush t -> Printf.sprintf "OPush %s" (coq_z t)
+  | C18Model.OWrite (k, i, v) -> Printf.sprintf "OWrite %s %s %s" (coq_nat k) (coq_nat i) (coq_z v)
+  | C18Model.OSer ls -> "OSer [" ^ String.concat "; " (Stdlib.List.map (fun (t, h) -> Printf.sprintf "(%s, %s)" (coq_z t) (coq_zlist h)) ls) ^ "]"
+
+let to_coq (idx : int) (ops : string list) (out : out_channel) =
+  let p = ref 0 and a = ref 0 in
+  let l = Stdlib.List.filter_map (fun s ->
+    match parse_op s with
+    | (Some o, _) -> Some o
+    | (None, Some (x, y)) -> p := x; a := y; None
+    | _ -> None) ops in
+  let tr = C18Model.run_trace (nat_of_int !p) (nat_of_int !a) l in
+  let obs = Stdlib.List.map (fun (o : C18Model.obs) ->
+    Printf.sprintf "{| o_bytes := %s; o_winlen := %s; o_layers := %s; o_panic := %s |}"
+      (coq_zlist o.C18Model.o_bytes) (coq_nat o.C18Model.o_winlen) (coq_zlist o.C18Model.o_layers)
+      (if o.C18Model.o_panic then "true" else "false")) tr in
+  Printf.fprintf out "Example sample_%d : run_trace %s %s [%s] = [%s].\nProof. vm_compute. reflexivity. Qed.\n" idx
+    (Printf.sprintf "%d%%nat" !p) (Printf.sprintf "%d%%nat" !a) (String.concat "; " (Stdlib.List.map coq_op l)) (String.concat ";\n  " obs)
+
+let registered_coq = Registry.register_coq "C18" ("From GP Require Import Base C18Model.\nOpen Scope nat_scope.\n", to_coq)
